@@ -23,7 +23,8 @@ RULE = (
     "non-square}. Oracle: display tree of colr_to_svg's output (own SVG interpreter), mapped back to the em box by the statement's rule with the "
     "glyph's real advance, == display tree of the paint graph (own COLR interpreter); currentColor <-> foreground, var(--colorN) <-> entry N in "
     "multi-palette fonts. A second strategy plants one unsupported node (sweep gradient, other composite mode, non-black backdrop, variable "
-    "paint): the conversion must raise or log a warning. Non-trivial: depth >= 3 with a transform paint and a gradient or a PaintColrGlyph."
+    "paint): the conversion must raise or log a warning. A quarter of the cases draw every glyph's fills from one pool of 2-3 gradients (the same "
+    "gradient in several glyphs, at different positions among each glyph's fills). Non-trivial: depth >= 3 with a transform paint and a gradient or a PaintColrGlyph."
 )
 ASSUMPTIONS = ["fontTools colorLib builds and decompiles the generated COLR faithfully", "both interpreters are ours: only nanoemoji's conversion is judged"]
 BUDGET = {"quick": 1280, "thorough": 48000}
@@ -85,7 +86,8 @@ def wrap_transform(draw, child):
     k = draw(st.sampled_from(["T", "Tr", "S", "SC", "SU", "SUC", "R", "RC", "K", "KC"]))
     cx, cy = draw(ints(-200, 800)), draw(ints(-200, 800))
     if k == "T":
-        return {"Format": 12, "Transform": (draw(fl(0.5, 1.5)), draw(fl(-0.5, 0.5)), draw(fl(-0.5, 0.5)), draw(fl(0.5, 1.5)), draw(ints(-100, 100)), draw(ints(-100, 100))), "Paint": child}
+        return {"Format": 12, "Transform": (draw(fl(0.5, 1.5)), draw(fl(-0.45, 0.45)), draw(fl(-0.45, 0.45)), draw(fl(0.5, 1.5)),  # det >= 0.0475: never singular
+                draw(ints(-100, 100)), draw(ints(-100, 100))), "Paint": child}
     if k == "Tr":
         return {"Format": 14, "dx": draw(ints(-300, 300)), "dy": draw(ints(-300, 300)), "Paint": child}
     if k == "S":
@@ -172,8 +174,31 @@ def font_case(draw):
     return {"version": version, "npal": npal, "paints": paints, "advs": advs, "vbmode": vbmode, "comp": comp_xf, "unsupported": unsupported}
 
 
+@st.composite
+def shared_pool_case(draw):
+    """2-4 colour glyphs whose layers take their fills from one small pool of gradients: the same gradient (stops and geometry)
+    occurs in several glyphs, at different positions among each glyph's fills - anything the converter remembers from one
+    glyph's document while it writes the next one shows up here."""
+    npal = draw(st.sampled_from([1, 2]))
+    pool = [draw(fill(npal).filter(lambda f: f["Format"] != 2)) for _ in range(draw(ints(2, 3)))]
+    outline_names = ["sq", "tri", "ring", "comp"]
+    paints = OrderedDict()
+    advs = {}
+    for i in range(draw(ints(2, 4))):
+        layers = []
+        for _ in range(draw(ints(1, 3))):
+            f = draw(st.sampled_from(pool))
+            if draw(st.sampled_from([False, False, False, True])):
+                f = draw(wrap_transform(f))
+            layers.append({"Format": 10, "Glyph": draw(st.sampled_from(outline_names)), "Paint": f})
+        paints["c%d" % i] = layers[0] if len(layers) == 1 else {"Format": 1, "Layers": layers}
+        advs["c%d" % i] = draw(st.sampled_from([1000, 600, 1400]))
+    vbmode = draw(st.sampled_from(["region", "region", "square", "offset"]))
+    return {"version": 1, "npal": npal, "paints": paints, "advs": advs, "vbmode": vbmode, "comp": [1, 0, 0, 1, 0, 0], "unsupported": None}
+
+
 def cases(tier):
-    return font_case()
+    return st.one_of(font_case(), font_case(), font_case(), shared_pool_case())
 
 
 PALETTE = [(1, 0, 0, 1), (0, 0.5, 1, 1), (0, 0.8, 0.2, 0.5), (0, 0, 0, 1)]
